@@ -99,6 +99,13 @@ def scripts(rnd, quick):
                 k = rnd.random()
                 areas.append(area(b, sz, rd=rnd.choice([1, 1, 0]), wr=rnd.choice([1, 1, 0]), skip=1 if k < 0.15 else 0,
                                   hasw=0 if 0.15 <= k < 0.3 else 1, kind=rnd.choice([0, 0, 1])))
+            # a bare placeholder now and then: zero size, no functions, no memory, at a non-zero base (only the base tells it from the end
+            # mark) - in front of an area or behind the last one; the areas behind it still count
+            if areas and rnd.random() < 0.15:
+                i = rnd.randint(0, len(areas))
+                pb = areas[i][0] if i < len(areas) else areas[-1][0] + areas[-1][1]
+                if pb != 0:
+                    areas.insert(i, area(pb, 0, kind=4))
             BAD_DEFAULT[0] = False
             regs = [mkreg(rnd, ty, addr) for (ty, addr) in rl]
             batch.append(tinit(rnd.randint(0, 1), areas, regs))
